@@ -69,7 +69,10 @@ func (g *dcgGen) braces() *G {
 }
 
 // body for non-terminal self; consumed: a terminal has certainly been consumed before this point
-func (g *dcgGen) body(depth, self int, consumed bool) *G {
+// cutOK: a '!' here is in a placement for which the engine provides clause-level cut (a direct conjunct of the
+// rule body or of one of its top-level disjuncts) or is local by ISO (inside \\+, call//N, a condition);
+// top: this position is the rule body or one of its top-level disjuncts
+func (g *dcgGen) body(depth, self int, consumed, cutOK, top bool) *G {
 	n := len(g.arity)
 	callable := func() *G {
 		lo := self + 1
@@ -87,29 +90,33 @@ func (g *dcgGen) body(depth, self int, consumed bool) *G {
 		}
 		return callable()
 	}
+	sub := func(c bool) *G { return g.body(depth-1, self, c, cutOK, false) }
 	switch g.r.intn(16) {
 	case 0, 1:
 		return g.terminals(false)
 	case 2, 3:
 		return callable()
 	case 4, 5, 6:
-		first := g.body(depth-1, self, consumed)
+		first := sub(consumed)
 		c := consumed || (first.K == 'c' && first.S == "." && first.Args[0].K == 'a')
-		return gc(",", first, g.body(depth-1, self, c))
+		return gc(",", first, sub(c))
 	case 7:
-		return gc(",", g.terminals(true), g.body(depth-1, self, true))
+		return gc(",", g.terminals(true), sub(true))
 	case 8:
-		return gc(";", g.body(depth-1, self, consumed), g.body(depth-1, self, consumed))
+		return gc(";", g.body(depth-1, self, consumed, cutOK && top, top), g.body(depth-1, self, consumed, cutOK && top, top))
 	case 9:
-		return gc("|", g.body(depth-1, self, consumed), g.body(depth-1, self, consumed))
+		return gc("|", g.body(depth-1, self, consumed, cutOK && top, top), g.body(depth-1, self, consumed, cutOK && top, top))
 	case 10:
 		return g.braces()
 	case 11:
-		if g.r.coin(0.5) { // commit after a prefix
-			return gc(",", g.body(depth-1, self, consumed), ga("!"))
+		if g.r.coin(0.5) && cutOK { // commit after a prefix
+			return gc(",", sub(consumed), ga("!"))
 		}
-		return gc("\\+", g.body(depth-1, self, consumed))
+		return gc("\\+", g.body(depth-1, self, consumed, true, false))
 	case 12:
+		if !cutOK {
+			return g.terminals(false)
+		}
 		return ga("!")
 	case 13:
 		lo := self + 1
@@ -122,9 +129,10 @@ func (g *dcgGen) body(depth, self int, consumed bool) *G {
 		}
 		return gc("call", ga(g.ntName(j)), g.argTerm())
 	case 14:
-		return gc(";", gc("->", g.body(depth-1, self, consumed), g.body(depth-1, self, consumed)), g.body(depth-1, self, consumed))
+		// the branches of an if-then-else are called: a cut there would be local in this engine (C03 names the placements)
+		return gc(";", gc("->", g.body(depth-1, self, consumed, true, false), g.body(depth-1, self, consumed, false, false)), g.body(depth-1, self, consumed, false, false))
 	default:
-		return gc("->", g.body(depth-1, self, consumed), g.body(depth-1, self, consumed))
+		return gc("->", g.body(depth-1, self, consumed, true, false), g.body(depth-1, self, consumed, false, false))
 	}
 }
 
@@ -154,8 +162,9 @@ func (g *dcgGen) grammar() []*G {
 		for k, m := 0, 1+g.r.intn(3); k < m; k++ {
 			g.nvar = 0
 			head := g.nt(i)
-			b := g.body(2, i, false)
-			if g.r.coin(0.08) { // push-back
+			pushback := g.r.coin(0.08)
+			b := g.body(2, i, false, true, !pushback) // with push-back the body is a conjunct, its disjunctions are not top-level
+			if pushback {
 				head = gc(",", head, glist([]*G{ga([]string{"a", "b", "c"}[g.r.intn(3)])}, nil))
 			}
 			rules = append(rules, renumberFrom(gc("-->", head, b), map[int]int{}))
